@@ -44,7 +44,7 @@ def run_cases(rep, tier, seed, prop, impl, model):
         repeat = None
         if prop == "C05":
             if kind == 0:
-                kw = {"fail_at": rng.below(50), "tolerated": False}
+                kw = {"fail_at": rng.below(50), "tolerated": False, "tolerated_before": idx % 12 == 0}
             elif kind == 1:
                 kw = {"fail_at": rng.below(50), "tolerated": True}
             elif kind == 2:
@@ -64,8 +64,9 @@ def run_cases(rep, tier, seed, prop, impl, model):
                 kw = {"fail_at": rng.below(50), "tolerated": True}
             if kind == 1:
                 repeat = {"count": 2}
-            long_actions = True
-        g = playgen.gen_play(rng, nacts=(rng.range(2, 3) if repeat else None), spotlight=spot, long_actions=long_actions, **kw)
+            # actions shorter than the tempo in several acts: only the tempo keeps the groups apart
+            long_actions = kind not in (1, 2, 3)
+        g = playgen.gen_play(rng, nacts=(rng.range(2, 3) if (repeat or not long_actions) else None), spotlight=spot, long_actions=long_actions, **kw)
         if repeat:
             # repeat from the act containing some scene char of the last act
             ch = [c for c in g["acts"][-1] if c.isalpha()][0]
@@ -83,6 +84,13 @@ def run_cases(rep, tier, seed, prop, impl, model):
         if not pr.get("Ok"):
             kdis.append({"config": g["text"], "problem": "generated play rejected: %s" % pr.get("Err")})
             continue
+        # the `?` marks are taken from the SOURCE of the script, not from what the compiler made of them
+        for act in pr["Play"] or []:
+            for sc in act["Scenes"]:
+                for ln in sc["Lines"] or []:
+                    for st in ln["Steps"] or []:
+                        if not st["Mood"]:
+                            st["FailOk"] = st["Action"] in g["marked"]
         pos = playgen.positions(pr["Play"])
         ptok = playgen.play_tokens(pr["Play"])
         # repeat spec as the real parser resolved it: read back from the -p listing
